@@ -4,6 +4,7 @@ import (
 	"bytes"
 	"fmt"
 	"sync"
+	"sync/atomic"
 	"time"
 
 	"github.com/cuteLittleDevil/go-jt808/service"
@@ -16,6 +17,8 @@ import (
 // C05 monitor 2 (socket, default configuration): transfers over loopback; observed at the read callback
 // (exactly one event with SubcontractComplete per transfer, with the right body) and on the wire (exactly one
 // reply per transfer; for 0x0801 the multimedia ID is the first 4 bytes of the REASSEMBLED body).
+
+var c05Modular atomic.Int64
 
 func c05SockConn(srv *svc.Server, cid int, seed uint64, ntransfers int) (viol [][2]string, incon bool, transfers int, wit any) {
 	bad := func(sig, detail string) { viol = append(viol, [2]string{sig, detail}) }
@@ -48,10 +51,35 @@ func c05SockConn(srv *svc.Server, cid int, seed uint64, ntransfers int) (viol []
 				bodies[N-1] = append(bodies[N-1], byte(0x40+len(bodies[N-1])%40))
 			}
 		}
+		modular := cid%10 == 3 && tr == 0
+		if modular {
+			// a transfer whose packets other than the completing one hold EXACTLY 65 536 bytes (64 x 1023 + 64): the length of
+			// the reassembled body equals the completing packet's own body length modulo 2^16
+			N, id = 66, 0x0801
+			bodies = nil
+			for k := 0; k < 64; k++ {
+				bodies = append(bodies, r.Bytes(1023))
+			}
+			bodies = append(bodies, r.Bytes(64), r.Bytes(64))
+			bodies[0][0], bodies[0][1], bodies[0][2], bodies[0][3] = 0x44, byte(cid), byte(cid>>8), 0x44
+		}
 		full := bytes.Join(bodies, nil)
 		order := []int{1}
 		for _, q := range r.Perm(N - 1) {
 			order = append(order, q+2)
+		}
+		if modular {
+			// the completing packet is one of the two 64-byte ones
+			order = order[:0]
+			for k := 1; k <= 64; k++ {
+				order = append(order, k)
+			}
+			if r.Bool() {
+				order = append(order, 65, 66)
+			} else {
+				order = append(order, 66, 65)
+			}
+			c05Modular.Add(1)
 		}
 		base := uint16(1000 + tr*40)
 		var frames [][]byte
